@@ -93,7 +93,7 @@ def forest(grammar, word, start="<start>"):
 
 # ------------------------------------------------------------------ static grammar facts (for generators / finding signatures)
 
-def nullable_map(grammar):
+def nullable_map(grammar, regex_nullable=False):
     """which nonterminals / nodes of a Grammar can derive the empty string (fixpoint)"""
     from fandango.language.grammar.nodes.alternative import Alternative
     from fandango.language.grammar.nodes.concatenation import Concatenation
@@ -115,6 +115,9 @@ def nullable_map(grammar):
             s = n.symbol
             v = s.value()._value
             if s.is_regex:
+                # for the parser a regex terminal never derives the empty string: scan_regex treats a zero-length match as no match
+                if not regex_nullable:
+                    return False
                 try:
                     return pyre.fullmatch(v, v[:0]) is not None
                 except Exception:
@@ -132,7 +135,7 @@ def nullable_map(grammar):
 
 
 def nonterminating_signature(grammar, start="<start>"):
-    """the recorded C06 finding: a repetition (max > 1 or open) whose body can derive the empty string, or a
+    """the recorded C06 finding: a * or + whose body can derive the empty string, or a
     nonterminal that can derive itself while everything around it derives the empty string (unit cycle),
     reachable from the start symbol"""
     from fandango.language.grammar.nodes.alternative import Alternative
@@ -158,11 +161,12 @@ def nonterminating_signature(grammar, start="<start>"):
         refs(grammar.rules[nt], out)
         todo.extend(out)
 
+    from fandango.language.grammar.nodes.repetition import Star, Plus
+
     def has_nullable_rep(n):
-        if isinstance(n, Repetition):
-            mx = n.internal_max
-            if (mx is None or mx > 1) and node_nullable(n.node):
-                return True
+        # only the true loops (X -> eps | body X) of * and + ; {n,m} and {n,} compile into finite chains
+        if isinstance(n, (Star, Plus)) and node_nullable(n.node):
+            return True
         return any(has_nullable_rep(c) for c in (n.children() if hasattr(n, "children") else []))
 
     # unit-reachability: A -> B when B occurs in A's body with everything else nullable
